@@ -14,7 +14,7 @@ import random
 
 from sim import rallyenv
 from sim.batch import Harness, RunResult
-from sim.loadsim import LoadSim, ScheduleObserver, SimParamSource, SimRunner, history_digest
+from sim.loadsim import LoadSim, ScheduleObserver, SimParamSource, SimPollRunner, SimRunner, history_digest
 from sim.simes import Installed, Outcome, SimES
 from sim.vclock import EPOCH, Proc, VClock
 
@@ -49,7 +49,14 @@ def gen_task(g, prop, name, svc, allow_ramp, big=False):
     t["op"] = "composite" if prop == "C18" and g.coin(0.75) else g.pick(["sim-op", "sim-op", "raw-request"])
     ms = mean_service(svc)
     loop = g.weighted([5, 4, 2])
-    if loop == 0:
+    if prop == "C05" and g.coin(0.1):
+        # a runner that reports completion itself: explicit iterations still win, otherwise the runner ends the task
+        t["op"] = "sim-poll"
+        t["clients"] = 1
+        loop = g.pick([0, 3])
+    if loop == 3:
+        pass  # neither iterations nor time periods
+    elif loop == 0:
         t["warmup-iterations"] = g.pick([0, 0, 1, 2, 3])
         t["iterations"] = g.pick([1, 1, 2, 3, 5, 8, 12])
         if g.coin(0.15):  # only one of the two given
@@ -74,6 +81,9 @@ def gen_task(g, prop, name, svc, allow_ramp, big=False):
     else:
         t["size"] = g.randint(1, 15)
         t["progress"] = g.coin(0.5)
+    if t["op"] == "sim-poll":
+        t.pop("size", None)
+        t.pop("progress", None)
     # throttling
     thr = g.weighted([4, 3, 2, 2, 2])
     unit = "ops"
@@ -122,7 +132,9 @@ def gen_task(g, prop, name, svc, allow_ramp, big=False):
         if g.coin(0.05) and plan["ret"].startswith("dict"):
             plan["throughput"] = [g.pick([1.5, 20.0, 0.0])]
     plan["cpu_params"] = g.pick([None, None, [0.0003], [0.003, 0, 0]])
-    if g.coin(0.3):
+    if t["op"] == "sim-poll":
+        plan["completes_after"] = g.randint(1, 12)
+    elif g.coin(0.3):
         plan["faults"] = {str(g.randint(0, 8)): g.pick(FAULTS) for _ in range(g.randint(1, 3))}
     if "size" in t:
         plan["size"] = t.pop("size")
@@ -466,6 +478,7 @@ class LoadgenHarness(Harness):
             SimRunner.clock = clock
             runner.register_default_runners(None)
             runner.register_runner("sim-op", SimRunner(), async_runner=True)
+            runner.register_runner("sim-poll", SimPollRunner(), async_runner=True)
             track_params.register_param_source_for_name("sim-params", SimParamSource)
             sim = LoadSim(ch, clock)
             obs.trace = sim.trace
@@ -646,6 +659,25 @@ def check_loop_control(prop, cfg, t, ci, client, h, ys, samples, proc, tol, bad,
     wi_given, it_given = "warmup-iterations" in t, "iterations" in t
     size = plan.get("size")
     time_based = "time-period" in t
+    if t["op"] == "sim-poll":
+        # the runner reports completion after K calls.  Explicit (warm-up) iterations make the task iteration-based all the same
+        # (whichever ends first ends it); without them the runner alone ends the task and nothing is warm-up
+        K = plan["completes_after"]
+        w = t.get("warmup-iterations", 0) if (wi_given or it_given) else 0
+        want = min(K, w + t.get("iterations", 1)) if (wi_given or it_given) else K
+        probes["runner_determines_completion"] = probes.get("runner_determines_completion", 0) + 1
+        if not external and n != want:
+            bad("iterations", "runner-completion-count", f"{ctx}: executed {n} requests; the runner reports completion after {K} calls, the task specifies warmup-iterations={t.get('warmup-iterations')} iterations={t.get('iterations')}: {want} expected")
+            return
+        for k, s in enumerate(samples):
+            if (s.sample_type == Warmup) != (k < w):
+                bad("warmup-flag", "runner-completion", f"{ctx}: request {k} flagged {s.sample_type} with warmup-iterations={w if (wi_given or it_given) else None} (runner reports completion after {K} calls)")
+                return
+        # (when the iterations end a task whose runner also reports progress, Rally shows the runner's progress, which is below 1;
+        # the property does not range over such runners, so only the unambiguous case is judged)
+        if not external and samples and K <= want and samples[-1].percent_completed != 1.0:
+            bad("progress", "final-not-1", f"{ctx}: last progress is {samples[-1].percent_completed}, not 1.0 (runner reports completion)")
+        return
     if not time_based and (wi_given or it_given or size is None):
         # iteration based
         w = t.get("warmup-iterations", 0)
